@@ -36,4 +36,29 @@ def listed (frags : List (List Edit)) : List Name :=
     ever removed): kept to show what the `remove` of the added names is for -/
 def scanNoReadd (frags : List (List Edit)) : List Name := frags.flatMap (fun f => (f.drop 1).flatMap (·.rm))
 
+/-! The INPUT of the scan.  `cleanup_orphans` runs at the end of `LsmTree::from_manifest`; it lists
+    `mani/` itself (`list_mani_fragments`) and reads every entry, the live `MANIFEST` included, AS
+    IT IS AT THAT MOMENT.  `LsmTree::open` gets there right after `Manifest::open` rolled the
+    manifest over (`MANIFEST` = the roll-up and nothing else); `KeyValueStore::open` replays the
+    logs in between (`recover` / `recover_one`), and every replayed log whose file the manifest does
+    not list appends an edit `+file` to the live `MANIFEST`. -/
+
+/-- the fragments the scan reads at an open: the numbered fragments, oldest first (the last of them
+    is what `MANIFEST` was before this open rolled it over), then the live `MANIFEST` at the time of
+    the scan: the roll-up followed by the edits written since the rollover (log recovery) -/
+def scanInput (numbered : List (List Edit)) (rollup : Edit) (recovery : List Edit) : List (List Edit) :=
+  numbered ++ [rollup :: recovery]
+
+/-- how many of the entries `list_mani_fragments` returns the scan leaves out: none (`scan` folds
+    over all of `scanInput`); tied to the source in `Blue.Proofs.ConstsTieC08` -/
+def entriesDropped : Nat := 0
+
+/-- a scan that leaves the live `MANIFEST` out (`manis.pop()`): "opening the manifest just rolled it
+    over, so `MANIFEST` holds only the roll-up, which is skipped anyway" -/
+def scanSkipLive (frags : List (List Edit)) : List Name := scan frags.dropLast
+
+/-- what a clean-up with that scan renames -/
+def movedSkipLive (sst trash : List Name) (frags : List (List Edit)) : List Name :=
+  (scanSkipLive frags).filter (fun x => sst.contains x && !trash.contains (x ++ sstSuffix))
+
 end Blue.Orphans
